@@ -1492,6 +1492,20 @@ func (m *Monitor) checkAEContract(ev *Event, n *NodeSh, mi *msgInfo) {
 			}
 		}
 		if lastChange <= own {
+			// success vouches for the previous entry: the node holds (prev index, prev term). Judged on the disk
+			// shadow, which keeps the entries a persisted-but-not-yet-installed snapshot has not replaced yet.
+			if req.Prev > n.base.Index {
+				m.Counts["c06.ae_prev_checked"]++
+				if se := n.entry(req.Prev); se == nil || se.Term != req.PrevTerm {
+					have := "no entry"
+					if se != nil {
+						have = fmt.Sprintf("term %d", se.Term)
+					}
+					m.violate(ev, []string{"C06"}, "accepted-without-matching-prev", n.ID, "node %s answered success to AppendEntries(prev %d/%d, %d entries) from %s although its log holds %s at index %d", n.ID, req.Prev, req.PrevTerm, len(req.Ents), req.From, have, req.Prev)
+				}
+			} else if req.Prev == n.base.Index && req.Prev != 0 && n.base.Term != req.PrevTerm {
+				m.violate(ev, []string{"C06"}, "accepted-without-matching-prev", n.ID, "node %s answered success to AppendEntries(prev %d/%d) from %s although its log starts after (%d,%d)", n.ID, req.Prev, req.PrevTerm, req.From, n.base.Index, n.base.Term)
+			}
 			for _, e := range req.Ents {
 				se := n.entry(e.Index)
 				if e.Index <= n.base.Index {
